@@ -130,3 +130,25 @@ fn dbg_c11_a() {
     assert!(r.is_ok());
     core::mem::forget(account);
 }
+
+#[kani::proof]
+#[kani::stub(std::hash::RandomState::new, rs_stub)]
+#[kani::stub(alloc::fmt::format, crate::verif_env::fmt_stub)]
+#[kani::unwind(2)]
+fn dbg_c11_b() {
+    let cur = AccountKey { creation_date: SystemTime::UNIX_EPOCH, key: gen_keypair(KT::EcdsaP256).unwrap(), signature_algorithm: JwsSignatureAlgorithm::Es256 };
+    let mut ep = AccountEndpoint::new();
+    ep.account_url = String::from("u");
+    ep.key_hash = hash_key(&cur).unwrap();
+    ep.contacts_hash = hash_contacts(&[]);
+    let mut endpoints = HashMap::new();
+    endpoints.insert(String::from("e"), ep);
+    let mut account = Account { name: String::from("a"), endpoints, contacts: vec![], current_key: cur, past_keys: vec![], file_manager: mk_fm(), external_account: None };
+    let mut endpoint = Endpoint::new("e", "", true, &[], &[]).unwrap();
+    env().acc_ev_n = 0;
+    let r = block_on(account.synchronize(&mut endpoint));
+    assert!(env().acc_ev_n == 0);
+    core::mem::forget(r);
+    core::mem::forget(account);
+    core::mem::forget(endpoint);
+}
